@@ -430,13 +430,16 @@ class Storm:
         nicks = ["%s%d" % (pfx, i) for i in range(k)]
         r = self.r
         bursts = []
+        tn = [0]
         for i in range(k):
             b = b""
             for _ in range(n):
                 ch = r.choice(chans)
                 t = r.choice(nicks)
+                tn[0] += 1
                 line = r.choice([
-                    "JOIN " + ch, "PART " + ch, "PRIVMSG %s :x" % ch, "PRIVMSG %s :y" % t, "MODE %s +o %s" % (ch, t),
+                    "JOIN " + ch, "PART " + ch, "PRIVMSG %s :cx %d %d" % (ch, i, tn[0]), "PRIVMSG %s :cx %d %d" % (t, i, tn[0]),
+                    "MODE %s +o %s" % (ch, t),
                     "MODE %s -o %s" % (ch, t), "MODE %s +v %s" % (ch, t), "KICK %s %s" % (ch, t), "TOPIC %s :t" % ch,
                     "MODE %s +l 3" % ch, "MODE %s -l" % ch, "INVITE %s %s" % (t, ch), "NAMES " + ch, "WHO " + ch,
                     "MODE %s +i" % nicks[i], "MODE %s -i" % nicks[i], "MODE %s +w" % nicks[i], "AWAY :a", "AWAY",
@@ -451,6 +454,7 @@ class Storm:
             try:
                 lines = c.read_until(lambda m: m.verb == "PONG" and m.params[-1:] == ["churn"], 15.0)
                 self.events += len(lines)
+                self.attributable(lines, nicks, i)
             except wire.Closed as ex:
                 self.bad("storm:churn-closed", "connection %d closed during churn (%s): %s" % (i, ex.kind, [m.raw for m in ex.lines][-2:]))
             except wire.Timeout:
@@ -465,6 +469,26 @@ class Storm:
         for c in cs:
             c.close()
         self.quiesce(srv, expect_users=[], expect_conns=0, what="churn teardown")
+
+
+def _attributable(self, lines, nicks, receiver):
+    """every delivered copy is traceable to one send, with a prefix its sender held at some time"""
+    seen = set()
+    for m in lines:
+        if m.verb == "PRIVMSG" and m.params[-1].startswith("cx "):
+            _, si, sn = m.params[-1].split()
+            src = (m.source or "").split("!")[0]
+            base = nicks[int(si)]
+            if not (src == base or (src.startswith(base + "n") and src[len(base) + 1:].isdigit())):
+                self.bad("storm:churn-misattributed", "receiver %d got %r with prefix %s (sender %d is %s)"
+                         % (receiver, m.params[-1], m.source, int(si), base))
+            key = (m.params[0], sn)
+            if key in seen:
+                self.bad("storm:churn-duplicate", "receiver %d got %r twice for target %s" % (receiver, m.params[-1], m.params[0]))
+            seen.add(key)
+
+
+Storm.attributable = _attributable
 
 
 def worker(args):
